@@ -39,6 +39,7 @@ type FuncContract struct {
 	Ensures  []Clause
 	Modifies []Expr
 	ModAll   bool
+	ModHeap  bool // `modifies heap`: any program heap component, ghosts only as listed
 	Loops    map[int]*LoopContract
 	Sites    []SiteContract
 	Inline   bool
@@ -436,6 +437,10 @@ func (db *ContractDB) loadFile(file, pkgPath string) (err error) {
 					break
 				}
 				for _, part := range splitTop(rest) {
+					if strings.TrimSpace(part) == "heap" {
+						cur.ModHeap = true
+						continue
+					}
 					e, err := parseExpr(part)
 					if err != nil {
 						return fail("%v", err)
